@@ -54,6 +54,12 @@ T = {
  "C14": (MC, "§6.14", "TLC enumerates small abstract Surface Evolver dumps (1-3 faces of 3..8 signed edge references, id offsets/gaps, negative references, density present/absent/bare, unattached vertices and edges, body lines permuted) and EVERY cut of every face record into physical lines, checks the transcribed parser against the declarative statement, and every emitted instance is written by an independent serialiser, parsed by the real SurfaceEvolver, a Frame(gt=True) is built and TLC judges the projection clause by clause; large random dumps and the shipped dumps (independent reader) are exploration.",
          "exhaustive over wrappings x profiles in the stated bounds; character-level layout from the serialiser; rotation of the cycle accepted",
          "TLA+ spec (SEDump.tla) + TLC bounded-exhaustive enumeration replayed into the code + TLC trace validation"),
+ "C12": (MC, "§6.12", "TLC explores the transcription of create_mapping/find_best/get_point_id_by_map on integer grids (0..120): all placements of N=3 (N=4 in thorough) junction sites x displacement stencil inside/outside the bounds x all numberings of both frames x partial/wrong guesses, invariants I=>D (range, injective, guess honoured, correct under the premise, round trip); sampled leaves are rebuilt as real Frames (necklace mesh) and, with random multi-frame series (random/affine/flowing fields, independent renumbering, cm on/off, guesses, disappearing vertices), validated by TLC against D with a TLC-evaluated premise.",
+         "premise evaluated with a 2% margin (borderline inputs rejected); extent = the code's maxcoord; smallest spacing = minimum over both frames",
+         "TLA+ spec (Tracking.tla) model-checked by TLC on integer grids + instances replayed on real Frames + TLC trace validation"),
+ "C13": (MC, "§6.13", "TLC checks I=>D for calculate_velocity/set_velocity_matrix on enumerated two-frame integer series x numberings x unequal time stamps in exact rational arithmetic; instances are replayed on real Frames; random 2..6-frame series with unequal stamps are validated by TLC in fixed point against the finite-difference, backward-at-last, zero-without-partner, RHS-row, static-zero, adimensional mean-speed, normalisation and system-velocity clauses.",
+         "tracked partner = the vertex the implementation's mapping designates (C12 owns its correctness); adimensional / system-velocity clauses are exploration",
+         "TLA+ spec (Tracking.tla velocity part) model-checked by TLC + TLC trace validation of the real time series"),
 }
 PENDING = "check not integrated yet (being built; see DESIGN.md Appendix D)"
 
